@@ -88,3 +88,223 @@ Theorem damage_in_crc_detected pre c' : c' < 4294967296 -> c' <> crc32 pre ->
 Proof.
   intros Hc Hne. rewrite verify_checksum_split by exact Hc. apply N.eqb_neq. intro E. apply Hne. symmetry. exact E.
 Qed.
+
+(* ---------- the scan over a damaged span ---------- *)
+From Syz Require Import StoreProofs.
+
+Lemma ta_img_head seq rid ss pad : wf_span seq rid ss pad ->
+  firstn 8 (ta_img seq rid ss pad) = be32 activeMagic ++ be32 (img_len seq rid ss pad).
+Proof.
+  intros Hw. unfold ta_img. rewrite (ta_field _ _ _ _ Hw). rewrite <- !app_assoc.
+  rewrite app_assoc. apply firstn_app_exact'. rewrite app_length, !length_be32. reflexivity.
+Qed.
+
+(* what damage to a span image is considered: same size, header words (magic, length) untouched, checksum now failing *)
+Record damaged (img img' : bytes) : Prop := {
+  dm_len : length img' = length img;
+  dm_head : firstn 8 img' = firstn 8 img;
+  dm_sum : verify_checksum img' = false }.
+
+Lemma damaged_shape seq rid ss pad img' : wf_span seq rid ss pad -> damaged (ta_img seq rid ss pad) img' ->
+  img' = be32 activeMagic ++ be32 (img_len seq rid ss pad) ++ skipn 8 img' /\ blen img' = img_len seq rid ss pad.
+Proof.
+  intros Hw [Hl Hh _]. split.
+  - rewrite <- (firstn_skipn 8 img') at 1. rewrite Hh, (ta_img_head _ _ _ _ Hw), <- app_assoc. reflexivity.
+  - unfold blen. rewrite Hl. fold (blen (ta_img seq rid ss pad)). apply blen_ta_img.
+Qed.
+
+Lemma parse_damaged seq rid ss pad img' : wf_span seq rid ss pad -> damaged (ta_img seq rid ss pad) img' ->
+  parse_span img' = Err.
+Proof.
+  intros Hw Hd. destruct (damaged_shape _ _ _ _ _ Hw Hd) as [Hs HL]. destruct Hd as [_ _ Hsum].
+  set (L := img_len seq rid ss pad) in *.
+  assert (H15 : 15 <= L) by apply img_len_ge15.
+  assert (HLlt : L < 4294967296) by (destruct Hw; assumption).
+  unfold parse_span. rewrite HL, minSpanLength_ok.
+  destruct (N.ltb_spec L 15) as [H|_]; [lia|].
+  assert (H1 : rd32 img' = Some activeMagic).
+  { rewrite Hs. apply rd32_be32. destruct magic_ok as [-> _]. lia. }
+  assert (H2 : rd32 (skipn 4 img') = Some L).
+  { rewrite Hs. rewrite (skipn_app_exact' (be32 activeMagic)) by reflexivity. apply rd32_be32. exact HLlt. }
+  rewrite H1, H2, N.eqb_refl. cbn [negb].
+  destruct (N.ltb_spec L L) as [H|_]; [lia|].
+  assert (H3 : firstn_N L img' = img').
+  { unfold firstn_N. rewrite <- HL, to_nat_blen. apply firstn_all. }
+  rewrite H3, Hsum. reflexivity.
+Qed.
+
+Lemma scan_step_damaged seq rid ss pad img' rest f acc : wf_span seq rid ss pad ->
+  damaged (ta_img seq rid ss pad) img' ->
+  scan_fuel (S f) (img' ++ rest) acc = scan_fuel f rest (TX img' :: acc).
+Proof.
+  intros Hw Hd. destruct (damaged_shape _ _ _ _ _ Hw Hd) as [Hs HL].
+  pose proof (parse_damaged _ _ _ _ _ Hw Hd) as Hp.
+  set (L := img_len seq rid ss pad) in *.
+  assert (H15 : 15 <= L) by apply img_len_ge15.
+  assert (HLlt : L < 4294967296) by (destruct Hw; assumption).
+  assert (Hc : exists b r, img' ++ rest = b :: r).
+  { rewrite Hs. unfold be32 at 1. cbn [app]. eauto. }
+  destruct Hc as (b & r & Hc).
+  cbn [scan_fuel]. rewrite Hc. rewrite <- Hc.
+  rewrite blen_app, HL, minSpanLength_ok.
+  destruct (N.ltb_spec (L + blen rest) 15) as [H|_]; [lia|].
+  assert (H1 : rd32 (img' ++ rest) = Some activeMagic).
+  { rewrite Hs, <- !app_assoc. apply rd32_be32. destruct magic_ok as [-> _]. lia. }
+  assert (H2 : rd32 (skipn 4 (img' ++ rest)) = Some L).
+  { rewrite Hs, <- !app_assoc. rewrite (skipn_app_exact' (be32 activeMagic)) by reflexivity. apply rd32_be32. exact HLlt. }
+  rewrite H1, H2.
+  destruct magic_ok as [Ha Hf].
+  destruct (N.eqb_spec activeMagic 0) as [H|_]; [rewrite Ha in H; lia|].
+  destruct (N.ltb_spec (L + blen rest) L) as [H|_]; [lia|].
+  destruct (N.eqb_spec L 0) as [H|_]; [lia|].
+  rewrite N.eqb_refl.
+  assert (Hf1 : firstn_N L (img' ++ rest) = img').
+  { unfold firstn_N. rewrite <- HL, to_nat_blen. apply firstn_app_exact. }
+  assert (Hs1 : skipn_N L (img' ++ rest) = rest).
+  { unfold skipn_N. rewrite <- HL, to_nat_blen. apply skipn_app_exact. }
+  rewrite Hf1, Hs1, Hp. reflexivity.
+Qed.
+
+Lemma damaged_len15 seq rid ss pad img' : wf_span seq rid ss pad -> damaged (ta_img seq rid ss pad) img' ->
+  (15 <= length img')%nat.
+Proof.
+  intros Hw Hd. destruct (damaged_shape _ _ _ _ _ Hw Hd) as [_ HL]. pose proof (img_len_ge15 seq rid ss pad). unfold blen in HL. lia.
+Qed.
+
+(* a clean file in which one active span has been damaged: the scan returns every other tile
+   unchanged and skips the damaged span by its (intact) length *)
+Theorem scan_damaged a b seq rid ss pad img' : Forall wf_tile a -> Forall wf_tile b ->
+  wf_span seq rid ss pad -> damaged (ta_img seq rid ss pad) img' ->
+  scan (flatten a ++ img' ++ flatten b) = Ok (a ++ TX img' :: b).
+Proof.
+  intros Ha Hb Hw Hd. unfold scan.
+  pose proof (length_tiles_le a Ha) as Hla. pose proof (length_tiles_le b Hb) as Hlb.
+  pose proof (damaged_len15 _ _ _ _ _ Hw Hd) as H15.
+  rewrite !app_length.
+  set (n := (length (flatten a) + (length img' + length (flatten b)))%nat).
+  replace (S n) with (length a + S (length b + S (n - length a - 1 - length b)))%nat by lia.
+  rewrite scan_tiles by exact Ha.
+  rewrite (scan_step_damaged seq rid ss pad) by assumption.
+  rewrite <- (app_nil_r (flatten b)).
+  rewrite scan_tiles by exact Hb. cbn [scan_fuel].
+  rewrite !app_nil_r, rev_app_distr, rev_involutive. cbn [rev]. rewrite rev_involutive, <- app_assoc. reflexivity.
+Qed.
+
+(* what can still be read afterwards: every document of every other span, byte-identical; the damaged one is gone *)
+Theorem contents_after_damage a b seq rid ss pad img' : wf_span seq rid ss pad ->
+  damaged (ta_img seq rid ss pad) img' ->
+  abs (a ++ TX img' :: b) = abs a ++ abs b /\
+  abs (a ++ TA (ta_img seq rid ss pad) seq rid :: b) = abs a ++ (rid, ss) :: abs b.
+Proof.
+  intros Hw Hd. unfold abs. rewrite !flat_map_app. cbn [flat_map tile_entry app].
+  rewrite <- (app_nil_r (ta_img seq rid ss pad)), (parse_span_img _ _ _ _ _ Hw). cbn [sp_streams app]. split; reflexivity.
+Qed.
+
+(* the two kinds of damage the burst theorem covers *)
+Lemma firstn_app_le {A} n (a b : list A) : (n <= length a)%nat -> firstn n (a ++ b) = firstn n a.
+Proof. intros H. rewrite firstn_app. replace (n - length a)%nat with O by lia. cbn. apply app_nil_r. Qed.
+
+Theorem burst_damage pre pre' : (8 <= length pre)%nat -> length pre' = length pre -> firstn 8 pre' = firstn 8 pre ->
+  burst32 pre pre' -> bits_of pre <> bits_of pre' ->
+  damaged (pre ++ be32 (crc32 pre)) (pre' ++ be32 (crc32 pre)).
+Proof.
+  intros H8 Hl Hh Hb Hne. constructor.
+  - rewrite !app_length, Hl. reflexivity.
+  - rewrite !firstn_app_le by lia. exact Hh.
+  - apply burst_in_body_detected; assumption.
+Qed.
+
+Theorem crc_damage pre c' : (8 <= length pre)%nat -> c' < 4294967296 -> c' <> crc32 pre ->
+  damaged (pre ++ be32 (crc32 pre)) (pre ++ be32 c').
+Proof.
+  intros H8 Hc Hne. constructor.
+  - rewrite !app_length, !length_be32. reflexivity.
+  - rewrite !firstn_app_le by lia. reflexivity.
+  - apply damage_in_crc_detected; assumption.
+Qed.
+
+(* ---------- the scan of ANY image whatsoever ---------- *)
+Definition from_file (file img : bytes) : Prop := exists p q, file = p ++ img ++ q.
+
+(* an active tile reported by the scan is a window of the file that parses as a span with these fields *)
+Definition ta_ok (file : bytes) (t : tile) : Prop :=
+  match t with
+  | TA img seq rid => from_file file img /\ exists sp, parse_span img = Ok sp /\ sp_seq sp = seq /\ sp_rid sp = rid
+  | _ => True
+  end.
+
+Lemma from_file_skip file l img : from_file (skipn_N l file) img -> from_file file img.
+Proof.
+  intros (p & q & H). exists (firstn_N l file ++ p), q.
+  rewrite <- app_assoc, <- H. unfold firstn_N, skipn_N. symmetry. apply firstn_skipn.
+Qed.
+
+Lemma ta_ok_skip file l t : ta_ok (skipn_N l file) t -> ta_ok file t.
+Proof. destruct t; cbn [ta_ok]; try tauto. intros [Hf Hs]. split; [eapply from_file_skip; eauto|exact Hs]. Qed.
+
+Lemma scan_fuel_sound : forall f rest acc ts, scan_fuel f rest acc = Ok ts ->
+  exists ts', ts = rev acc ++ ts' /\ Forall (ta_ok rest) ts'.
+Proof.
+  induction f as [|f IH]; intros rest acc ts H; [discriminate|].
+  cbn [scan_fuel] in H. destruct rest as [|b0 r0] eqn:Er.
+  - inversion H; subst. exists []. rewrite app_nil_r. split; [reflexivity|constructor].
+  - rewrite <- Er in *. clear Er b0 r0.
+    assert (Hz : forall bs, Ok (rev (TZ bs :: acc)) = Ok ts -> exists ts', ts = rev acc ++ ts' /\ Forall (ta_ok rest) ts').
+    { intros bs E. inversion E; subst. exists [TZ bs]. cbn [rev]. split; [reflexivity|]. repeat constructor. }
+    destruct (blen rest <? minSpanLength); [apply (Hz _ H)|].
+    destruct (rd32 rest) as [m|]; [|apply (Hz _ H)].
+    destruct (rd32 (skipn 4 rest)) as [l|]; [|apply (Hz _ H)].
+    destruct (m =? 0); [apply (Hz _ H)|].
+    destruct (blen rest <? l); [apply (Hz _ H)|].
+    destruct (l =? 0); [discriminate|].
+    assert (Hnext : forall t, ta_ok rest t -> scan_fuel f (skipn_N l rest) (t :: acc) = Ok ts ->
+                     exists ts', ts = rev acc ++ ts' /\ Forall (ta_ok rest) ts').
+    { intros t Ht E. destruct (IH _ _ _ E) as (ts' & -> & Hall). exists (t :: ts'). cbn [rev]. rewrite <- app_assoc. split; [reflexivity|].
+      constructor; [exact Ht|]. eapply Forall_impl; [|exact Hall]. intros t'. apply ta_ok_skip. }
+    destruct (m =? activeMagic).
+    + destruct (parse_span (firstn_N l rest)) as [sp| |] eqn:Ep; [| |discriminate].
+      * assert (Hok : ta_ok rest (TA (firstn_N l rest) (sp_seq sp) (sp_rid sp))).
+        { cbn [ta_ok]. split; [|exists sp; auto].
+          exists [], (skipn_N l rest). cbn [app]. unfold firstn_N, skipn_N. symmetry. apply firstn_skipn. }
+        apply (Hnext _ Hok H).
+      * apply (Hnext (TX (firstn_N l rest)) I H).
+    + destruct (m =? freeMagic).
+      * destruct (l <? 8); [apply (Hnext (TZ (firstn_N l rest)) I H) | apply (Hnext (TF l (skipn 8 (firstn_N l rest))) I H)].
+      * apply (Hnext (TX (firstn_N l rest)) I H).
+Qed.
+
+Theorem scan_sound file ts : scan file = Ok ts -> Forall (ta_ok file) ts.
+Proof. intros H. destruct (scan_fuel_sound _ _ _ _ H) as (ts' & -> & Hall). exact Hall. Qed.
+
+(* the scan panics only over a window whose checksum is valid and which is still not a serialised span *)
+Lemma scan_fuel_panic : forall f rest acc, scan_fuel f rest acc = Panic ->
+  exists img, from_file rest img /\ parse_span img = Panic.
+Proof.
+  induction f as [|f IH]; intros rest acc H; [discriminate|].
+  cbn [scan_fuel] in H. destruct rest as [|b0 r0] eqn:Er; [discriminate|].
+  rewrite <- Er in *. clear Er b0 r0.
+  destruct (blen rest <? minSpanLength); [discriminate|].
+  destruct (rd32 rest) as [m|]; [|discriminate].
+  destruct (rd32 (skipn 4 rest)) as [l|]; [|discriminate].
+  destruct (m =? 0); [discriminate|].
+  destruct (blen rest <? l); [discriminate|].
+  destruct (l =? 0); [discriminate|].
+  assert (Hnext : forall t, scan_fuel f (skipn_N l rest) (t :: acc) = Panic -> exists img, from_file rest img /\ parse_span img = Panic).
+  { intros t E. destruct (IH _ _ E) as (img & Hf & Hp). exists img. split; [eapply from_file_skip; eauto|exact Hp]. }
+  destruct (m =? activeMagic).
+  - destruct (parse_span (firstn_N l rest)) as [sp| |] eqn:Ep; [apply (Hnext _ H)|apply (Hnext _ H)|].
+    exists (firstn_N l rest). split; [|exact Ep].
+    exists [], (skipn_N l rest). cbn [app]. unfold firstn_N, skipn_N. symmetry. apply firstn_skipn.
+  - destruct (m =? freeMagic); [destruct (l <? 8)|]; apply (Hnext _ H).
+Qed.
+
+(* a parsed span always carries a valid checksum over the window its own length field delimits *)
+Lemma parse_ok_checksum img sp : parse_span img = Ok sp ->
+  exists l, rd32 img = Some activeMagic /\ rd32 (skipn 4 img) = Some l /\ verify_checksum (firstn_N l img) = true.
+Proof.
+  unfold parse_span. destruct (blen img <? minSpanLength); [discriminate|].
+  destruct (rd32 img) as [m|]; [|discriminate]. destruct (rd32 (skipn 4 img)) as [l|]; [|discriminate].
+  destruct (N.eqb_spec m activeMagic) as [->|]; [|discriminate]. cbn [negb].
+  destruct (blen img <? l); [discriminate|].
+  destruct (verify_checksum (firstn_N l img)) eqn:V; [|discriminate]. intros _. exists l. auto.
+Qed.
